@@ -28,6 +28,7 @@ func init() {
 type vecInst struct {
 	index *vecfc.Index
 	input *evStore
+	vals  *pos.Validators
 }
 
 type vecRunner struct {
@@ -54,7 +55,7 @@ func (r *vecRunner) Step(line string) string {
 		case 1:
 			cfg = vecfc.DefaultConfig(cachescale.Ratio{Base: 2000, Target: 1})
 		}
-		in := &vecInst{index: vecfc.NewIndex(crit, cfg), input: &evStore{m: map[hash.Event]dag.Event{}}}
+		in := &vecInst{index: vecfc.NewIndex(crit, cfg), input: &evStore{m: map[hash.Event]dag.Event{}}, vals: r.vals}
 		in.index.Reset(r.vals, memorydb.New(), in.input.GetEvent)
 		r.idxs[Atou(f[1])] = in
 		return "ok"
@@ -83,6 +84,12 @@ func (r *vecRunner) Step(line string) string {
 	}
 	in := r.idxs[Atou(f[1])]
 	switch f[0] {
+	case "revals": // revals <k> id:w ... : Reset of the index to another validator set over a fresh DB
+		nv := parseVals(f[2:])
+		in.input.m = map[hash.Event]dag.Event{}
+		in.index.Reset(nv, memorydb.New(), in.input.GetEvent)
+		in.vals = nv
+		return "ok"
 	case "add": // add <k> <n>
 		e, ok := r.events[Atou(f[2])]
 		if !ok {
@@ -116,7 +123,11 @@ func (r *vecRunner) Step(line string) string {
 			return "na"
 		}
 		v := in.index.GetMergedHighestBefore(a.ID())
-		n := int(r.vals.Len())
+		if ps := a.Parents(); len(ps) > 0 {
+			// a caller may hold one merged clock while asking for another one
+			_ = in.index.GetMergedHighestBefore(ps[len(ps)-1])
+		}
+		n := int(in.vals.Len())
 		parts := make([]string, n)
 		for i := 0; i < n; i++ {
 			s := v.Get(idx.Validator(i))
@@ -276,6 +287,21 @@ func genVec(r *Rand, n int, tier string, w *bufio.Writer) {
 					} else {
 						fmt.Fprintf(w, "fc %d %d %d\n", k, a, b)
 					}
+				}
+			}
+			// sometimes: Reset the index to other weights (same validator ids) and index the same events again;
+			// answers cached under the old weights must not be served
+			if r.Chance(1, 4) {
+				nvs := make([]string, nv)
+				for i := range ids {
+					nvs[i] = fmt.Sprintf("%d:%d", ids[i], []uint64{1, 1, 5, 9}[r.Intn(4)])
+				}
+				fmt.Fprintf(w, "revals %d %s\n", k, strings.Join(nvs, " "))
+				for _, e := range all {
+					fmt.Fprintf(w, "add %d %d\n", k, e.n)
+				}
+				for q := 0; q < 3*len(all); q++ {
+					fmt.Fprintf(w, "fc %d %d %d\n", k, all[r.Intn(len(all))].n, all[r.Intn(len(all))].n)
 				}
 			}
 			// final sweep: all pairs for small DAGs
